@@ -117,7 +117,7 @@ def _matches(waiter, etype, fields):
 
 
 def c02(tr, acc, case):
-    for r_ in tr.rec.of("send_error"):
+    for r_ in tr.rec.of("step_send_error"):
         acc.hit("send_refused_eval")
         acc.violation({"mech": "step_could_not_send_event", "exc": r_["exc"], "from_sync_step": bool(r_.get("thread"))},
                       f"ctx.send_event called by step {r_['step']} raised {r_['exc']}: {r_['msg']}; the event (uid {r_['uid']}) was never handed to any step", case)
